@@ -273,6 +273,30 @@ def number_format(rep, prog, rx_pos, r_pos):
                 for x in walk(call_args(n)[1]):
                     if x.get("k") == "StringLiteral":
                         fmts.add(x["v"])
+    # coordinates printed with snprintf into a local buffer: the text must fit, snprintf cuts it silently otherwise
+    for f in wp:
+        for n in walk(f["body"]):
+            if n.get("k") == "CallExpr" and n.get("callee", "").split("::")[-1] == "snprintf" and len(call_args(n)) >= 4:
+                a = call_args(n)
+                buf = strip(a[0])
+                while buf.get("k") in ("ImplicitCastExpr",) and buf.get("c"):
+                    buf = strip(buf["c"][0])
+                lit = [x for x in walk(a[2]) if x.get("k") == "StringLiteral"]
+                size = None
+                if buf.get("k") == "DeclRefExpr":
+                    for v in walk(f["body"]):
+                        if v.get("k") == "Var" and v.get("did") == (buf.get("ref") or {}).get("did"):
+                            m_ = re.match(r"^char\s*\[(\d+)\]$", (v.get("t") or "").strip())
+                            size = int(m_.group(1)) if m_ else None
+                m2 = re.fullmatch(r"%(?:\.(\d+))?([eE])", lit[0]["v"]) if len(lit) == 1 else None
+                if size is None or m2 is None:
+                    raise AnalysisBroken("%s: coordinates are formatted with snprintf in a form whose maximal length is not decided" % prog.loc(f, n))
+                need = (int(m2.group(1)) if m2.group(1) else 6) + 9      # sign d . prec e sign ddd NUL
+                fmts.add(lit[0]["v"])
+                if need > size:
+                    rep.violation("C16.number-format", prog, f, n, "coordinate text cut by a too small buffer",
+                                  "%s prints a double with %r into a %d-byte buffer: a negative value with a three-digit exponent needs %d bytes (sign, d.%s, e, sign, three digits, NUL), so snprintf cuts the last digit of the exponent (-1.2345e-300 is written as -1.2345e-30): the file is well formed and is read back with different coordinates" % (f["qn"], lit[0]["v"], size, need, "d" * (int(m2.group(1)) if m2.group(1) else 6)))
+                    return
     num = [p for nm, (p, node) in rx_pos.items() if "\\d" in p and "e|E" in p or ("[\\d.]" in p)]
     if len(fmts) != 1 or not num:
         raise AnalysisBroken("coordinate format / number regex not found (%s / %s)" % (fmts, list(rx_pos)))
